@@ -119,8 +119,15 @@ class Context:
             except SyntaxError as e:
                 raise AnalysisError(rule, "cannot parse %s: %s" % (rel, e))
             if rel.endswith(".py") and "/generated/" not in rel and os.environ.get("VERIF_NO_NORMALISE") != "1":
+                from .inline_helpers import inline_new_helpers, inventory
+                known = inventory().get(rel)
+                if known is not None:
+                    self.cache["inlined_helpers:" + rel] = inline_new_helpers(mod, known)
                 normalise_polarity(mod)
                 inline_temporaries(mod)
+                if known is not None and self.cache.get("inlined_helpers:" + rel):
+                    from .inline_helpers import drop_self_assignments
+                    drop_self_assignments(mod)
             for parent in ast.walk(mod):
                 for child in ast.iter_child_nodes(parent):
                     child._parent = parent  # type: ignore[attr-defined]
